@@ -19,6 +19,7 @@ type verifC13Store struct {
 	events   []string
 	liveAt   []int // number of live lock files after each event
 	otherDel int   // >=0: another process removes lock file #otherDel before the next List (stale-lock remover)
+	reliable bool  // List and Remove never fail (used where only Save faults are the subject)
 }
 
 func (s *verifC13Store) note(ev string) {
@@ -40,7 +41,7 @@ func (s *verifC13Store) List(_ context.Context, _ restic.FileType, fn func(resti
 		s.note("other-removed")
 		s.otherDel = -1
 	}
-	if verifrt.Bool("listFails") {
+	if !s.reliable && verifrt.Bool("listFails") {
 		s.note("list-failed")
 		return errors.New("list failed")
 	}
@@ -62,7 +63,7 @@ func (s *verifC13Store) SaveUnpacked(context.Context, restic.FileType, []byte) (
 }
 func (s *verifC13Store) RemoveUnpacked(_ context.Context, _ restic.FileType, id restic.ID) error {
 	verifrt.Yield()
-	if verifrt.Bool("removeFails") {
+	if !s.reliable && verifrt.Bool("removeFails") {
 		s.note("remove-failed")
 		return errors.New("remove failed")
 	}
